@@ -27,13 +27,14 @@ class Mutant:
     new: str
     count: int = 1  # how many occurrences are replaced (0 = all)
     note: str = ""
+    more: tuple = ()  # further edits ((path, old, new), ...) applied together with the first one (multi-hunk / multi-file changes)
 
 
 MUTANTS: List[Mutant] = []
 
 
-def M(mid, prop, rule, path, old, new, count=1, note=""):
-    MUTANTS.append(Mutant(mid, prop, rule, path, old, new, count, note))
+def M(mid, prop, rule, path, old, new, count=1, note="", more=()):
+    MUTANTS.append(Mutant(mid, prop, rule, path, old, new, count, note, tuple(more)))
 
 
 @dataclass
@@ -44,20 +45,22 @@ class SelfTestResult:
 
 
 def apply_mutant(repo: Repo, m: Mutant) -> Optional[Repo]:
-    rel = PKG + m.path
-    mod = None
-    for x in repo.modules.values():
-        if x.relpath == rel:
-            mod = x
-    if mod is None or m.old not in mod.source:
-        return None
-    src = mod.source.replace(m.old, m.new) if m.count == 0 else mod.source.replace(m.old, m.new, m.count)
-    try:
-        ast.parse(src)
-    except SyntaxError:
-        return None
     ov = dict(repo.overrides)
-    ov[rel] = src
+    for path, old, new, count in ((m.path, m.old, m.new, m.count),) + tuple((a, b, c, 1) for a, b, c in m.more):
+        rel = PKG + path
+        mod = None
+        for x in repo.modules.values():
+            if x.relpath == rel:
+                mod = x
+        cur = ov.get(rel, mod.source if mod is not None else None)
+        if cur is None or old not in cur:
+            return None
+        src = cur.replace(old, new) if count == 0 else cur.replace(old, new, count)
+        try:
+            ast.parse(src)
+        except SyntaxError:
+            return None
+        ov[rel] = src
     return Repo(str(repo.root), ov)
 
 
